@@ -71,4 +71,32 @@ def bpsign(eq, mesh, spec):
     return {rid: float(r.bpsign) for rid, r in mesh.regions.items()}
 
 
-EXTRACTORS = {"beta": beta, "bpsign": bpsign, "eqinfo": eqinfo, "regions": regions, "meshmeta": meshmeta}
+def fieldpts(eq, mesh, spec):
+    """point values of the equilibrium's field functions at the cell centres (global arrays), and finite-difference curl of b/B
+    computed independently of the helper chain"""
+    R, Z = mesh.Rxy.centre, mesh.Zxy.centre
+    out = {}
+    psi = eq.psi(R, Z)
+    out["BR"], out["BZ"] = eq.Bp_R(R, Z), eq.Bp_Z(R, Z)
+    out["f"] = eq.fpol(psi) + 0.0 * R
+    out["fp"] = eq.fpolprime(psi) + 0.0 * R
+    out["pRR"], out["pZZ"], out["pRZ"] = eq.d2psidR2(R, Z), eq.d2psidZ2(R, Z), eq.d2psidRdZ(R, Z)
+    h = 1.0e-5
+
+    def A(a, b):
+        B2 = eq.Bp_R(a, b) ** 2 + eq.Bp_Z(a, b) ** 2 + (eq.fpol(eq.psi(a, b)) / a) ** 2
+        return eq.Bp_R(a, b) / B2, (eq.fpol(eq.psi(a, b)) / a) / B2, eq.Bp_Z(a, b) / B2
+
+    ARp, AzetaRp, AZRp = A(R + h, Z)
+    ARm, AzetaRm, AZRm = A(R - h, Z)
+    ARZp, AzetaZp, AZZp = A(R, Z + h)
+    ARZm, AzetaZm, AZZm = A(R, Z - h)
+    out["curlR"] = -(AzetaZp - AzetaZm) / (2 * h)
+    out["curlZ"] = ((R + h) * AzetaRp - (R - h) * AzetaRm) / (2 * h) / R
+    out["curlzeta"] = (ARZp - ARZm) / (2 * h) - (AZRp - AZRm) / (2 * h)
+    out["psiR"] = (eq.psi(R + h, Z) - eq.psi(R - h, Z)) / (2 * h)
+    out["psiZ"] = (eq.psi(R, Z + h) - eq.psi(R, Z - h)) / (2 * h)
+    return {k: np.array(v, dtype=float) for k, v in out.items()}
+
+
+EXTRACTORS = {"fieldpts": fieldpts, "beta": beta, "bpsign": bpsign, "eqinfo": eqinfo, "regions": regions, "meshmeta": meshmeta}
